@@ -9,6 +9,7 @@
 package rtmp
 
 import (
+	"bufio"
 	"io"
 	"math"
 	"sync"
@@ -1141,4 +1142,65 @@ func lemma_C03_callRoundtrip(tid, bits uint64) bool {
 
 func spec_be64(p []byte) uint64 {
 	return uint64(p[0])<<56 | uint64(p[1])<<48 | uint64(p[2])<<40 | uint64(p[3])<<32 | uint64(p[4])<<24 | uint64(p[5])<<16 | uint64(p[6])<<8 | uint64(p[7])
+}
+
+// ---------- C01: writer and reader agree across chunk boundaries (bounded) ----------
+// One message of 9 arbitrary bytes through a chunk size of 4 (three chunks: type-0 header, two type-3 headers), written
+// by the real WriteMessage and read back by the real ReadMessage from the very bytes the writer produced
+// (prim_pipe: the reader's unread input IS the writer's output). All callees inlined, loops unrolled: bounded.
+
+func prim_pipe(r io.Reader, w io.Writer, from int) {} // engine primitive
+func prim_freshstream(w io.Writer)                 {} // engine primitive: nothing written yet, unlimited transport
+
+func spec_roundtrip(ts uint32, typ uint8, sid uint32, cs uint32, n int) bool {
+	v := &Protocol{r: new(bufio.Reader), w: new(bufio.Writer)}
+	v.input.opt, v.output.opt = newSettings(), newSettings()
+	v.input.opt.chunkSize, v.output.opt.chunkSize = cs, cs
+	v.input.chunks = map[chunkID]*chunkStream{}
+	v.input.transactions = map[amf0.Number]amf0.String{}
+	m := NewStreamMessage(int(sid))
+	m.MessageType, m.Timestamp = MessageType(typ), uint64(ts)
+	m.Payload = make([]byte, n)
+	prim_havoc(m.Payload)
+	prim_freshstream(v.w)
+	if err := v.WriteMessage(m); err != nil {
+		return false // the transport accepts everything here
+	}
+	prim_pipe(v.r, v.w, 0)
+	got, err := v.ReadMessage()
+	if err != nil || got == nil {
+		return false
+	}
+	return got.MessageType == m.MessageType && got.streamID == m.streamID && got.Timestamp == m.Timestamp && prim_eqbytes(got.Payload, m.Payload) &&
+		ghost_rd_pos(v.r) == ghost_rd_len(v.r) // and the reader stopped exactly at the end of what was written
+}
+
+// video-like message (not a protocol-control type), timestamps below the extended-timestamp threshold
+//@ bounded lemma_C01_roundtrip_3chunks 4
+//@ lemma C01.roundtrip.multi-chunk.bounded
+func lemma_C01_roundtrip_3chunks(ts uint32, sid uint32) bool {
+	if ts >= 0xffffff {
+		return true
+	}
+	return spec_roundtrip(ts, 9, sid, 4, 9)
+}
+
+// extended timestamps: the 32-bit field follows the type-0 header and every type-3 header
+//@ bounded lemma_C01_roundtrip_3chunks_ext 4
+//@ lemma C01.roundtrip.multi-chunk-ext.bounded
+func lemma_C01_roundtrip_3chunks_ext(ts uint32, sid uint32) bool {
+	if ts < 0xffffff || ts >= 1<<31 {
+		return true
+	}
+	return spec_roundtrip(ts, 8, sid, 4, 9)
+}
+
+// payload length an exact multiple of the chunk size (no empty trailing chunk), and a single byte
+//@ bounded lemma_C01_roundtrip_exact 4
+//@ lemma C01.roundtrip.exact-multiple.bounded
+func lemma_C01_roundtrip_exact(ts uint32, sid uint32) bool {
+	if ts >= 1<<31 {
+		return true
+	}
+	return spec_roundtrip(ts, 9, sid, 4, 8) && spec_roundtrip(ts, 9, sid, 4, 1)
 }
